@@ -8,7 +8,7 @@ import (
 
 func init() {
 	Register(&Check{
-		ID: "C13", Title: "values keep their exact meaning across text forms", PanicViolates: true,
+		ID: "C13", SelfTest: true, Title: "values keep their exact meaning across text forms", PanicViolates: true,
 		Files: append([]vm.HarnessFile{hf("internal/parser", "zz_verif_c13.go"), hf("internal/interpreter", "zz_verif_c07.go"),
 			hf("internal/interpreter", "zz_verif_c06.go"), hf("internal/interpreter", "zz_verif_c13.go"), hf("", "zz_verif_c13.go")}, apiFiles...),
 		LoadPkgs: []string{"", "internal/interpreter", "internal/parser"}, InitPkgs: apiInit,
